@@ -408,6 +408,11 @@ func (ex *Exec) report(st *State, kind, msg string, extra *smt.Term) {
 		ex.S.Done()
 		mk(m, kind)
 	default:
+		if m := ex.candidateSearch(st, q); m != nil {
+			ex.OverApprox["solver unknown: counterexample found by candidate evaluation"]++
+			mk(m, kind)
+			return
+		}
 		mk(nil, "unknown-"+kind)
 	}
 }
